@@ -398,8 +398,20 @@ def incomplete_test(ctx, R3, dv):
                     if "BODYLEN" in asrc and f"len({dv.buf})" in unparse(b):
                         found += 1
                         # bytes available from the frame start: len(buf) - start   (or start added on the other side)
+                        def start_term(e_):
+                            # the frame start itself is one of the summands
+                            terms_ = []
+
+                            def flat_(y):
+                                if isinstance(y, ast.BinOp) and isinstance(y.op, ast.Add):
+                                    flat_(y.left)
+                                    flat_(y.right)
+                                else:
+                                    terms_.append(y)
+                            flat_(e_)
+                            return len(terms_) > 1 and any(isinstance(y, ast.Name) and dv.sources(y, n.id) == {"START"} for y in terms_)
                         ok = ("START" in bsrc and isinstance(b, ast.BinOp) and isinstance(b.op, ast.Sub)) or \
-                             ("START" in asrc and isinstance(a, ast.BinOp) and isinstance(a.op, ast.Add))
+                             ("START" in asrc and isinstance(a, ast.BinOp) and isinstance(a.op, ast.Add) and start_term(a))
                         ctx.instance(R3, "Codec.decode[incomplete-frame test]", ok,
                                      f"`{short(x)}` compares the frame length with the whole buffer, leading garbage included: after garbage a frame that "
                                      "is still a few bytes short looks complete, is parsed, fails and is consumed - lost when its last bytes arrive", loc(x))
